@@ -268,6 +268,10 @@ def _units_and_support(db, rep):
         r6.broken('no byte-level string edit found in cclLang (anchor vanished)')
     r10 = rep.rule('r10', 'INHERITED-TEXTS: every user-edited text the aggregator carries over from the previous version (text definition, convention, term) is passed through the previous-name -> new-name translation, like its siblings', 3)
     _inherited_texts(db, r10)
+    r11 = rep.rule('r11', 'FREE-TEXT-UNMARKED: a translator that rewrites names it does not know (TFFactory::GetTransition appends an error suffix) never has the last word on a free-text convention: '
+                          'it is not passed to a function that applies its translator to RSConcept::convention, unless the convention translated with the plain map is stored afterwards', 1)
+    _marking_translator(db, r11)
+    _raw_text_minimal(db, rep)
     r9 = rep.rule('r9', 'WHOLE-IDENTIFIER: names are located in expression texts only through the lexer (TranslateRS / MathLexer tokens); no function of the schema layers searches a text for a name with std::string::find and then edits the text at the position found (F1 is a substring of F10)', 1)
     _no_substring_search(db, r9)
     r8 = rep.rule('r8', 'TRANSLATE-ONCE: a copied constituent has the names in its texts rewritten exactly once by the complete old->new map (a single-item inserter already renames the copy\'s own alias; a later complete translation requires every text to be stored again from the source)', 4)
@@ -365,3 +369,181 @@ def _inherited_texts(db, r10):
             r10.ok(inst, 'translated %s it is stored' % ('after' if translated_after else 'before'), f.loc(n))
         else:
             r10.violation(inst, f.loc(n), 'the inherited %s is stored as it was in the previous version (`%s`): a name that denotes another constituent in the new version (previous X2 is now X3) keeps pointing at the wrong one, while the sibling texts are translated' % (what.lower(), (n.get('txt') or '')[:70]))
+
+
+def _translator_ref(f, sid):
+    """the DeclRefExpr a translator argument denotes, through the copies std::function makes"""
+    n = f.stmts.get(sid)
+    for _ in range(12):
+        n = f.strip(n)
+        if n is None:
+            return None
+        if n['k'] == 'DeclRefExpr':
+            return n
+        if n['k'] in ('CXXConstructExpr', 'CXXTemporaryObjectExpr') and len(n.get('args', [])) == 1 and (n.get('cls') or '').startswith('std::function'):
+            n = f.stmts.get(n['args'][0])
+            continue
+        return None
+    return None
+
+
+def _marking_translator(db, r11):
+    GT = 'ccl::rslang::TFFactory::GetTransition'
+    if db.fn(GT, required=False) is None:
+        r11.broken('anchor vanished: TFFactory::GetTransition')
+        return
+    # (function, parameter index) through which a translator is applied to RSConcept::convention
+    touch = {}
+    for f in db.functions:
+        if f.body < 0:
+            continue
+        for c in f.calls():
+            if (c.get('cs') or '') == 'ccl::rslang::TranslateRS' and len(c.get('args', [])) >= 3:
+                a0 = f.strip(f.stmts[c['args'][0]])
+                tr = _translator_ref(f, c['args'][2])
+                if a0 is not None and a0['k'] == 'MemberExpr' and (a0.get('qn') or '').endswith('RSConcept::convention') and tr is not None and tr.get('dk') == 'param':
+                    touch[(f.name, tr.get('pidx'))] = f.loc(c)
+    if not touch:
+        r11.broken('no function applies a translator to RSConcept::convention (RSConcept::Translate vanished?)')
+        return
+    changed = True
+    while changed:
+        changed = False
+        for f in db.functions:
+            if f.body < 0:
+                continue
+            for c in f.calls():
+                if c['k'] not in ('CallExpr', 'CXXMemberCallExpr'):
+                    continue
+                g = db.by_mn.get(c.get('mn') or '')
+                if g is None:
+                    continue
+                for i, a in enumerate(c.get('args', [])):
+                    if (g.name, i) in touch:
+                        tr = _translator_ref(f, a)
+                        if tr is not None and tr.get('dk') == 'param' and (f.name, tr.get('pidx')) not in touch:
+                            touch[(f.name, tr.get('pidx'))] = f.loc(c)
+                            changed = True
+    r11.note = getattr(r11, 'note', None)
+    sites = 0
+    for f in db.functions:
+        if f.body < 0 or not any((c.get('cs') or '') == GT for c in f.calls()):
+            continue
+        marking = set()
+        for n in f.walk():
+            if n['k'] == 'DeclStmt':
+                for d in n.get('decls', []):
+                    if d.get('init') is not None and d['init'] in f.stmts and any((c.get('cs') or '') == GT for c in f.calls(d['init'])):
+                        marking.add(d['did'])
+        for c in f.calls():
+            if c['k'] not in ('CallExpr', 'CXXMemberCallExpr'):
+                continue
+            g = db.by_mn.get(c.get('mn') or '')
+            if g is None:
+                continue
+            for i, a in enumerate(c.get('args', [])):
+                if (g.name, i) not in touch:
+                    continue
+                tr = _translator_ref(f, a)
+                direct = any((x.get('cs') or '') == GT for x in f.calls(a))
+                if not direct and not (tr is not None and tr.get('did') in marking):
+                    continue
+                sites += 1
+                inst = '%s -> %s' % (f.name.split('::')[-1], g.name.split('::')[-1])
+                # the accepted repair: later in the same block the convention translated with the plain map is stored for the same constituent
+                block = next((x for x in f.ancestors(c) if x['k'] == 'CompoundStmt'), None)
+                stored = False
+                if block is not None:
+                    plain = set()
+                    for x in f.calls(block):
+                        if (x.get('cs') or '').split('::')[-1] == 'SubstituteGlobals' and x.get('args') and x['id'] < c['id']:
+                            v = f.strip(f.stmts[x['args'][0]])
+                            if v is not None and v['k'] == 'DeclRefExpr' and v.get('dk') == 'local':
+                                plain.add(v.get('did'))
+                    for x in f.calls(block):
+                        if (x.get('cs') or '').split('::')[-1] == 'SetConventionFor' and len(x.get('args', [])) >= 2 and x['id'] > c['id']:
+                            v = f.strip(f.stmts[x['args'][1]])
+                            same = (f.stmts[x['args'][0]].get('txt') or '0') == (f.stmts[c['args'][0]].get('txt') or '1') if c.get('args') else False
+                            if v is not None and v.get('did') in plain and same:
+                                stored = True
+                if stored:
+                    r11.ok(inst, 'the marking translator reaches the convention, and the convention translated with the plain map is stored afterwards', f.loc(c))
+                else:
+                    r11.violation(inst, f.loc(c), 'a translator from TFFactory::GetTransition (appends _ERROR to every short name it does not know) is applied to the free-text convention through %s (%s): '
+                                  'a convention "The Set X1" becomes "The_ERROR Set_ERROR X3"' % (g.name, touch[(g.name, i)]))
+    if sites == 0:
+        r11.ok('no-marking-translator-reaches-a-convention', '%d translator parameters reach RSConcept::convention; none receives a GetTransition translator' % len(touch), '')
+
+
+def _raw_text_minimal(db, rep):
+    """r12: ManagedText::TranslateRaw interpreted from its source (with Reference::ExtractAll / Parse / TranslateEntity / ToString, the UTF-8
+    iterator and std::string::replace) on texts assembled from references in several spellings - tags in either order, a blank after the comma,
+    the legacy field form, a collaboration reference - between one- and multi-byte text, under a rename, a swap and a prefix map. Only
+    Morphology is abstract: a set of grammemes printed in the canonical order (what C17 r2 decides about the tables). The translated text must be
+    the original with the entity names replaced and every other byte kept."""
+    import itertools, re
+    from engine.evalmini import Interp, Obj, OutOfFragment, NOT_HANDLED
+    LL = 'ccl::lang::'
+    r12 = rep.rule('r12', 'RAW-TEXT-MINIMAL: translating the references of a text replaces the entity names and keeps every other byte (tag order, blanks, legacy fields, the text around)', 1)
+    tr = db.fn(LL + 'ManagedText::TranslateRaw', required=False)
+    if tr is None:
+        r12.broken('anchor vanished: ManagedText::TranslateRaw')
+        return
+    KNOWN = ['sing', 'plur', 'nomn', 'gent']
+
+    def canon(arg):
+        toks = [bytes(x).decode() for x in arg] if isinstance(arg, list) else [t.strip() for t in bytes(arg).decode().split(',')]
+        return [k for k in KNOWN if k in toks]
+
+    def on_call(it, fn, n, env):
+        cs = n.get('cs') or ''
+        if n['k'] in ('CXXConstructExpr', 'CXXTemporaryObjectExpr') and (n.get('cls') or '') == LL + 'Morphology' and len(n.get('args', [])) == 1 \
+                and not n.get('copyctor') and not n.get('movector'):
+            return Obj(__cls__=LL + 'Morphology', tags=canon(it.eval(fn, fn.stmts[n['args'][0]], env)))
+        if cs == LL + 'Morphology::ToString' and 'obj' in n:
+            return bytearray(','.join(it.eval(fn, fn.stmts[n['obj']], env)['tags']).encode())
+        if cs == LL + 'Morphology::empty' and 'obj' in n:
+            return len(it.eval(fn, fn.stmts[n['obj']], env)['tags']) == 0
+        if cs == 'std::empty' and n.get('args'):
+            o = it.eval(fn, fn.stmts[n['args'][0]], env)
+            if isinstance(o, Obj) and o.get('__cls__') == LL + 'Morphology':
+                return len(o['tags']) == 0
+        if cs == 'std::stoi' and n.get('args'):
+            t_ = bytes(it.eval(fn, fn.stmts[n['args'][0]], env)).decode('ascii', 'replace')
+            try:
+                return int(t_)
+            except ValueError:
+                raise OutOfFragment('std::stoi("%s") throws std::invalid_argument' % t_)
+        if cs == '__assert_fail':
+            return None
+        return NOT_HANDLED
+    thorough = rep.tier == 'thorough'
+    refs = ['@{X1|nomn,sing}', '@{X1|sing,nomn}', '@{X1|nomn, sing}', '@{X11|gent}', '@{X2|plur}', '@{-1|basic}', '@{X1|nomn|sing|2}']
+    glue = ['', ' ', 'Ж', '∀ a'] if thorough else ['', 'Ж ']
+    maps = [{'X1': 'X22'}, {'X1': 'X2', 'X2': 'X1'}, {'X11': 'X1'}, {'X2': 'X2'}]
+    bad, cases = None, 0
+    try:
+        for k in (1, 2, 3) if thorough else (1, 2):
+            for combo in itertools.product(refs, repeat=k):
+                for g in glue:
+                    text = g + g.join(combo) + g
+                    for m in maps:
+                        want = re.sub(r'@\{([A-Za-z][^|}]*)\|', lambda mo: '@{' + m.get(mo.group(1), mo.group(1)) + '|', text)
+                        this = Obj(__cls__=LL + 'ManagedText', rawText=bytearray(text.encode()), cache=bytearray())
+                        lam = ('pyfn', lambda s_, m=m: (bytearray(m[bytes(s_).decode()].encode()) if bytes(s_).decode() in m else None))
+                        Interp(db, on_call=on_call, max_steps=2000000).call(tr, [lam], this)
+                        got = bytes(this['rawText']).decode('utf-8', 'replace')
+                        cases += 1
+                        if got != want and bad is None:
+                            bad = 'TranslateRaw of "%s" under %s gives "%s"; only the names change: "%s"' % (text, m, got, want)
+                if bad and not thorough:
+                    break
+            if bad and not thorough:
+                break
+    except OutOfFragment as e:
+        r12.broken('ManagedText::TranslateRaw outside the evaluable fragment: %s' % e)
+        return
+    if bad:
+        r12.violation('TranslateRaw', '%s:%d' % (tr.file, tr.line), bad)
+    else:
+        r12.ok('TranslateRaw', '%d (text, map) pairs over %d reference spellings' % (cases, len(refs)), '%s:%d' % (tr.file, tr.line))
